@@ -81,6 +81,12 @@ func StreamBatch(stream <-chan *gdbi.GraphElement, batchSize int, graph string, 
 				edge.ID = UUID()
 			}
 			err := edge.Validate()
+			if err == nil && edge.From == "" {
+				err = fmt.Errorf("'from' cannot be blank")
+			}
+			if err == nil && edge.To == "" {
+				err = fmt.Errorf("'to' cannot be blank")
+			}
 			if err != nil {
 				bulkErr = multierror.Append(
 					bulkErr,
